@@ -15,6 +15,13 @@
       prescribes. Results are appended to meta.json.
 
   tools/seedcheck.py runall [--tier quick]
+  tools/seedcheck.py runmissing [--tier quick]
+      runall, restricted to the seeds whose meta.json has no checks_on_repo entry for the tier.
+
+  tools/seedcheck.py sweep [-j N]
+      Regression sweep after the checks themselves changed: every seed's patch is applied to its
+      own scratch copy (VERIF_REPO, removed afterwards) and the target property's quick check is
+      run, N at a time. Prints the seeds no longer caught; meta.json gets "checks_sweep".
 """
 import glob, json, os, shutil, subprocess, sys, tempfile, time
 
@@ -141,7 +148,52 @@ def main():
         for d in sorted(glob.glob(os.path.join(ROOT, "seeded", "*", "meta.json"))):
             run_on_repo(os.path.basename(os.path.dirname(d)), tier, a[1:])
         return 0
+    if a[0] == "runmissing":
+        for d in sorted(glob.glob(os.path.join(ROOT, "seeded", "*", "meta.json"))):
+            if tier not in json.load(open(d)).get("checks_on_repo", {}):
+                run_on_repo(os.path.basename(os.path.dirname(d)), tier, a[1:])
+        return 0
+    if a[0] == "sweep":
+        j = int(a[a.index("-j") + 1]) if "-j" in a else 4
+        return sweep(j)
     print(__doc__); return 2
+
+
+def sweep_one(sid):
+    dst = os.path.join(ROOT, "seeded", sid)
+    meta = json.load(open(os.path.join(dst, "meta.json")))
+    d = tempfile.mkdtemp(prefix="ivgsweep-%s-" % sid)
+    try:
+        repo = os.path.join(d, "repo")
+        subprocess.run(["rsync", "-a", "--exclude", ".git", "/repo/", repo + "/"], check=True)
+        rc, out = sh(["git", "apply", "--whitespace=nowarn", os.path.join(dst, "patch.diff")], repo)
+        if rc != 0:
+            return sid, {"error": "patch does not apply"}
+        prop = meta["breaks_property"]
+        checks = [prop]
+        prev = meta.get("checks_on_repo", {}).get("quick", {}) or meta.get("checks_on_scratch_copy", {})
+        if prev.get(prop, {}).get("verdict") != "caught":
+            checks = [c for c, r in prev.items() if r.get("verdict") == "caught"] or [prop]
+        res = run_checks(checks, dict(ENV, VERIF_REPO=repo, VERIF_TMP=d))
+        meta["checks_sweep"] = res
+        json.dump(meta, open(os.path.join(dst, "meta.json"), "w"), indent=1)
+        return sid, res
+    finally:
+        shutil.rmtree(d, ignore_errors=True)
+
+
+def sweep(j):
+    from concurrent.futures import ThreadPoolExecutor
+    sids = [os.path.basename(os.path.dirname(d)) for d in sorted(glob.glob(os.path.join(ROOT, "seeded", "*", "meta.json")))]
+    bad = []
+    with ThreadPoolExecutor(j) as ex:
+        for sid, res in ex.map(sweep_one, sids):
+            ok = any(r.get("verdict") == "caught" for r in res.values() if isinstance(r, dict))
+            print("%s %s" % (sid, " ".join("%s=%s" % (c, r.get("verdict") if isinstance(r, dict) else r) for c, r in res.items())), flush=True)
+            if not ok:
+                bad.append(sid)
+    print("NOT CAUGHT:", bad)
+    return 1 if bad else 0
 
 
 if __name__ == "__main__":
